@@ -83,14 +83,16 @@ extern "C" void sym_body()
                 S(i, k, 0, 0)  = sym_real(sym_nm("s", i, k));
                 Wk(i, k, 0, 0) = sym_real(sym_nm("w", i, k));
             }
-        cluster_t cluster(n, 2);
-        for (tensor_size_t i = 0; i < n; ++i) cluster.assign(i, i == 1 ? -1 : (i % 2 == 0 ? 0 : 1));
+        // groups=<number of clusters>, unas=<bit mask of the samples left unassigned> (default: 2 groups, sample 1 unassigned)
+        const tensor_size_t groups = cfgi("groups", 2);
+        const long          unas   = cfgi("unas", 2);
+        cluster_t cluster(n, groups);
+        for (tensor_size_t i = 0; i < n; ++i) cluster.assign(i, ((unas >> i) & 1) ? -1 : (i % groups));
         gboost::scale_function_t f(it, *loss, cluster, S, Wk);
-        vector_t x(2), g(2);
-        x(0) = sym_real("x0");
-        x(1) = sym_real("x1");
+        vector_t x(groups), g(groups);
+        for (tensor_size_t k = 0; k < groups; ++k) x(k) = sym_real(sym_nm("x", k));
         const double v = f.vgrad(x, g);
-        double       e = 0.0, eg[2] = {0.0, 0.0};
+        double       e = 0.0, eg[4] = {0.0, 0.0, 0.0, 0.0};
         for (tensor_size_t i = 0; i < m; ++i)
         {
             const auto s   = samples(i);
@@ -103,8 +105,7 @@ extern "C" void sym_body()
             }
         }
         SYM_EQ_(v, e / static_cast<double>(m), "scale objective = mean_i loss(t_i, s_i + x[cluster_i]*w_i), unassigned samples unscaled");
-        SYM_EQ_(g(0), eg[0] / static_cast<double>(m), "scale gradient (group 0)");
-        SYM_EQ_(g(1), eg[1] / static_cast<double>(m), "scale gradient (group 1)");
+        for (tensor_size_t k = 0; k < groups; ++k) SYM_EQ_(g(k), eg[k] / static_cast<double>(m), "scale gradient (per group; unassigned samples do not contribute)");
     }
     // gradients function
     if (part == "all" || part == "grads")
